@@ -112,6 +112,7 @@ pub fn run_input(input: &Value) -> Case {
         class: kind.to_string(),
         nontrivial,
         key,
+        features: vec![],
     }
 }
 
